@@ -62,6 +62,10 @@ def _case(draw, part):
         c["h"] = math.copysign(min(abs(c["h"]), 0.1), c["h"])
     if part == "energy":
         c["layout"] = "default"
+    if part == "nonlinear":
+        # the Jacobian of the map is probed on ONE integrator object that has just stepped to the probed point (a
+        # continuation), each probe differing from the reached state in a single component
+        c["warm"] = draw(st.booleans())
     return c
 
 
@@ -222,10 +226,28 @@ def check(case):
                     viols.append(V("mask_not_applied", "{}: kick mask {} set through {} but the integrator works with {}".format(
                         name, Hm.mask.astype(int).tolist(), case["mask_via"], None if used is None else used.astype(int).reshape(-1).tolist()), sig, **attrs))
                     return viols, dict(nontrivial=nontrivial, labels=labels)
+            elif case.get("warm"):
+                from desolver import DiffRHS
+                winteg = M.get(name)(sys_dim=(Hm.n,), dtype=dt, rtol=1e-13, atol=1e-13)
+                wrhs = DiffRHS(Hm.rhs)
+
+                def warm_up():
+                    _, (dT0, dY0) = winteg(wrhs, dt(-h), y0.astype(dt), {}, dt(h))
+                    return dt(-h) + dT0, (y0.astype(dt) + np.asarray(dY0, dtype=dt))
+                t_reached, y_reached = warm_up()
+
+                def step(yy):
+                    tr, _ = warm_up()           # the same object has just arrived at (t_reached, y_reached) ...
+                    _, (dT, dY) = winteg(wrhs, tr, np.asarray(yy, dtype=dt), {}, dt(h))      # ... and steps on from an edited state
+                    if abs(float(dT) - float(h)) > 1e-12 * abs(h):
+                        raise RuntimeError("step shortened")
+                    return np.asarray(yy, dtype=dt) + np.asarray(dY, dtype=dt)
+                y0 = np.asarray(y_reached, dtype=np.float64)
+                labels.append("probed_on_a_continuing_integrator")
             else:
                 step = lambda yy: _step_direct(name, Hm, np.asarray(yy), h, dt)
             cols = []
-            yb = y0.astype(dt)
+            yb = y0.astype(dt) if not case.get("warm") or case["layout"] != "default" else y_reached
             for i in range(n):
                 e = np.zeros(n, dtype=dt)
                 e[i] = delta
